@@ -434,6 +434,17 @@ class Session:
         e = self.guarded(do)
         self.emit({"op": "ol_refill", "p": op["p"], "exc": e, "post": self.project(), "stk": stk()})
 
+    def op_ol_setitem(self, op):
+        """lst[i] = a fresh object: the new object takes the place of the old one"""
+        f = self.field_of(op["p"])
+
+        def do():
+            lst = self.lookup(op["p"])
+            e_ = self.classes[f["cls"]]()
+            lst[op["i"]] = vsc.rand_attr(e_) if f["rand"] else vsc.attr(e_)
+        e = self.guarded(do)
+        self.emit({"op": "ol_setitem", "p": op["p"], "i": op["i"], "exc": e, "post": self.project(), "stk": stk()})
+
     # ---- calls
     def _do_call(self, call, extra_pins=None):
         """performs the randomize call described by `call`; extra_pins: list of (path, bits)"""
